@@ -687,6 +687,13 @@ func hasDeferredRecover(p *Prog, fn *ssa.Function) bool {
 // and invoke-mode calls on ANY interface resolved to module implementers (over-approximate
 // on purpose: a goroutine that might reach a defect site must be found).
 func (p *Prog) moduleReachAll(roots []*ssa.Function) map[*ssa.Function]bool {
+	return p.moduleReachOpt(roots, true)
+}
+
+// moduleReachOpt: with funcValues=false, calls through function values are resolved only
+// when the callee is evident at the call site (a closure created in the same function);
+// the "any address-taken function of identical signature" over-approximation is off.
+func (p *Prog) moduleReachOpt(roots []*ssa.Function, resolveFuncValues bool) map[*ssa.Function]bool {
 	seen := map[*ssa.Function]bool{}
 	var work []*ssa.Function
 	push := func(f *ssa.Function) {
@@ -737,6 +744,20 @@ func (p *Prog) moduleReachAll(roots []*ssa.Function) map[*ssa.Function]bool {
 		}
 		for _, b := range f.Blocks {
 			for _, in := range b.Instrs {
+				// functions whose address is taken here (callbacks handed to other code)
+				for _, op := range in.Operands(nil) {
+					if op == nil || *op == nil {
+						continue
+					}
+					switch v := (*op).(type) {
+					case *ssa.Function:
+						push(v)
+					case *ssa.MakeClosure:
+						if fv, ok := v.Fn.(*ssa.Function); ok {
+							push(fv)
+						}
+					}
+				}
 				ci, ok := in.(ssa.CallInstruction)
 				if !ok {
 					continue
@@ -747,9 +768,14 @@ func (p *Prog) moduleReachAll(roots []*ssa.Function) map[*ssa.Function]bool {
 					continue
 				}
 				if !cc.IsInvoke() {
+					if mc, ok := cc.Value.(*ssa.MakeClosure); ok {
+						if f, ok := mc.Fn.(*ssa.Function); ok {
+							push(f)
+						}
+					}
 					// call through a function value: any function of identical signature whose
 					// address is taken somewhere
-					if _, isBuiltin := cc.Value.(*ssa.Builtin); !isBuiltin {
+					if _, isBuiltin := cc.Value.(*ssa.Builtin); !isBuiltin && resolveFuncValues {
 						sig := cc.Signature()
 						for _, f := range funcValues {
 							if types.Identical(f.Signature, sig) {
